@@ -186,8 +186,11 @@ def rule_asraw_siblings(fx, col):
         st = b.j.get('impl_self_ty', '')
         lib_or_user = [t for _, t in calls if U.callee_name(t) not in ('deref', 'borrow')]
         if st.startswith('*'):
-            ok = not calls
-            why = 'raw pointer: identity (no call)'
+            # identity: no call at all, or only address-preserving pointer casts of `self` (`self.cast_mut()`)
+            CASTS = ('cast_mut', 'cast_const', 'cast')
+            ok = all(U.callee_name(t) in CASTS and 'ptr::' in t['callee'].get('path', '') and
+                     b.origins(t['args'][0], through_calls=lambda tt: [0] if U.callee_name(tt) in CASTS else None) == {('arg', 1)} for _, t in calls)
+            why = 'raw pointer: identity (no call, or pointer casts of self only)'
         elif 'ptr::NonNull<' in st or 'ptr::non_null::NonNull<' in st:
             # the pointer itself, like *mut T: the only call is NonNull::as_ptr on self
             ok = len(calls) == 1 and U.callee_name(calls[0][1]) == 'as_ptr' and 'NonNull' in calls[0][1]['callee'].get('path', '') and \
@@ -550,7 +553,8 @@ def rule_cache_shape(fx, col):
             if {asp[0][0], cell[0].bb} == ls | rs:
                 guard = ((d['op'] == 'Ne') == truth)
         elif r2 and r2[0] and r2[0][0] == 'call' and U.callee_name(r2[0][2]) in ('eq', 'ne') and len(r2[0][2]['args']) == 2 \
-                and (r2[0][2]['callee'].get('trait_pretty') or r2[0][2]['callee'].get('trait') or '').endswith('cmp::PartialEq'):
+                and ((r2[0][2]['callee'].get('trait_pretty') or r2[0][2]['callee'].get('trait') or '').endswith('cmp::PartialEq')
+                     or r2[0][2]['callee'].get('path', '').endswith('ptr::eq')):
             # the two pointers compared as `Option<NonNull<_>>` (or another wrapper that compares by address): `a == b` is a call of eq
             thr_w = lambda t: [0] if U.callee_name(t) in ('new', 'new_unchecked', 'cast', 'cast_mut', 'cast_const', 'as_ptr', 'from') and \
                 ('ptr::' in t['callee'].get('path', '') or 'NonNull' in t['callee'].get('path', '')) else None
